@@ -17,6 +17,12 @@
  * ============================================================================
  */
 
+static int compare_bool(const void* a, const void* b) {
+    int va = *(const uint8_t*)a != 0;
+    int vb = *(const uint8_t*)b != 0;
+    return va - vb;
+}
+
 static int compare_int32(const void* a, const void* b) {
     int32_t va = *(const int32_t*)a;
     int32_t vb = *(const int32_t*)b;
@@ -56,8 +62,9 @@ typedef int (*compare_fn_t)(const void*, const void*);
 
 static compare_fn_t get_compare_fn(carquet_physical_type_t type) {
     switch (type) {
-        case CARQUET_PHYSICAL_INT32:
         case CARQUET_PHYSICAL_BOOLEAN:
+            return compare_bool;
+        case CARQUET_PHYSICAL_INT32:
             return compare_int32;
         case CARQUET_PHYSICAL_INT64:
             return compare_int64;
@@ -67,6 +74,18 @@ static compare_fn_t get_compare_fn(carquet_physical_type_t type) {
             return compare_double;
         default:
             return NULL;  /* Use byte comparison */
+    }
+}
+
+/* Bytes a plain-encoded value of a fixed-width type occupies (0: variable) */
+static size_t fixed_value_width(carquet_physical_type_t type) {
+    switch (type) {
+        case CARQUET_PHYSICAL_BOOLEAN: return 1;
+        case CARQUET_PHYSICAL_INT32:
+        case CARQUET_PHYSICAL_FLOAT:   return 4;
+        case CARQUET_PHYSICAL_INT64:
+        case CARQUET_PHYSICAL_DOUBLE:  return 8;
+        default:                       return 0;
     }
 }
 
@@ -179,6 +198,19 @@ carquet_status_t carquet_reader_row_group_matches(
     int32_t schema_idx = reader->schema->leaf_indices[column_index];
     const parquet_schema_element_t* elem = &reader->schema->elements[schema_idx];
     carquet_physical_type_t type = elem->has_type ? elem->type : CARQUET_PHYSICAL_BYTE_ARRAY;
+
+    /* The typed comparators read a whole value: the probe must be one, and
+     * statistics shorter than the type's width (a 1-byte boolean bound, a
+     * truncated bound in a damaged footer) cannot be used at all. */
+    size_t width = fixed_value_width(type);
+    if (width > 0) {
+        if (value_size < (int32_t)width) {
+            return CARQUET_ERROR_INVALID_ARGUMENT;
+        }
+        if (stats.min_value_size < (int32_t)width || stats.max_value_size < (int32_t)width) {
+            return CARQUET_OK;
+        }
+    }
 
     /* A NaN probe is unordered with respect to every value: x == NaN never
      * holds and x != NaN always does, and the three-way comparators below
